@@ -311,6 +311,8 @@ def gen_errnest(rng, **_):
 
     if rng.random() < 0.4:
         sc['types'][rng.choice('BC')]['timeout'] = rng.choice([9 / 128, 33 / 128])
+        for b_ in sc['buses']:
+            b_['parallel'] = False          # (handler timeouts on parallel buses are outside the modelled envelope)
     # A: dispatch B, await it, go on
     after = []
     slot = 1
@@ -529,6 +531,8 @@ def gen_fwdfail(rng, **_):
     slow = rng.random() < 0.25
     if slow:
         sc['types']['A']['timeout'] = rng.choice([9 / 128, 33 / 128])
+        for b_ in sc['buses']:
+            b_['parallel'] = False          # (handler timeouts on parallel buses are outside the modelled envelope)
     nbad = rng.choice([1, 1, 2])
     badbus = [rng.randrange(n) for _ in range(nbad)]
     for b in range(n):
